@@ -336,7 +336,7 @@ func (p *C08) Rule() string {
 
 func (p *C08) Assumptions() []string {
 	return []string{
-		"the strict reader encodes the property's own list (header, format, ntrks = --track = MTrk count, chunk lengths, VLQ <= 4 bytes, status/running status, data bytes < 128, one final end-of-track per track, note pairing on the merged stream, tempo/time/key signature only in the first chunk, standard lengths of those meta events); nothing else is judged",
+		"the strict reader encodes the property's own list (header, format, ntrks = --track = MTrk count, chunk lengths, VLQ <= 4 bytes, status/running status, data bytes < 128, one final end-of-track per track, note pairing inside each track chunk, tempo/time/key signature only in the first chunk, standard lengths of those meta events); nothing else is judged",
 		"schedule and delivery variations are expected to be inert for this property",
 	}
 }
